@@ -34,6 +34,31 @@ def _apply(root, file, old, new):
     return out
 
 
+def _apply_diff(root, diff):
+    """{file: patched text} for a unified diff kept under /verif (a refactoring of the benign corpus used
+    as the base of a seed): applied with `git apply` to a throw-away copy of the sources."""
+    import shutil
+    import subprocess
+    import tempfile
+
+    here = os.path.dirname(os.path.dirname(os.path.abspath(__file__)))
+    d = os.path.join(here, diff)
+    tmp = tempfile.mkdtemp(prefix="jtsa_sd_")
+    try:
+        shutil.copytree(os.path.join(root, "jaxtyping"), os.path.join(tmp, "jaxtyping"), ignore=shutil.ignore_patterns("__pycache__"))
+        r = subprocess.run(["git", "apply", "--unsafe-paths", "--directory", tmp, d], cwd=tmp, capture_output=True, text=True)
+        if r.returncode != 0:
+            return None
+        out = {}
+        for line in open(d, encoding="utf-8"):
+            if line.startswith("+++ b/"):
+                rel = line[6:].strip()
+                out[rel] = open(os.path.join(tmp, rel), encoding="utf-8").read()
+        return out
+    finally:
+        shutil.rmtree(tmp, ignore_errors=True)
+
+
 def _baseline_keys(prop, root):
     from .runner import analyse
 
@@ -50,6 +75,12 @@ def run_seed(args):
 
     overrides = {}
     for file, old, new in edits:
+        if file == "@diff":  # start from a refactoring of the benign corpus
+            got = _apply_diff(root, old)
+            if got is None:
+                return (sid, prop, "skipped", f"{old} no longer applies to the current tree")
+            overrides.update(got)
+            continue
         base_src = overrides.get(file)
         if base_src is None:
             out = _apply(root, file, old, new)
